@@ -193,6 +193,15 @@ func checkNumbersExhaustive(c *C) {
 			}
 			if isNumStart(s[0]) {
 				checkNumberInputs(c, ins, true)
+				if c.HasModel() {
+					// the grammar's voice: RFC.Number (decided through parseNumberFixed, theorem C21.number_iff) and
+					// the independent recogniser Ref.isNumber, both against encoding/json.Valid
+					want := "00"
+					if valid {
+						want = "11"
+					}
+					c.Compare("RFC number grammar vs encoding/json.Valid", in("number", s, "numspec"), want, c.Ask("numspec %s", vh.Hex(s)))
+				}
 			} else {
 				// parseNext never hands these to parseNumber; the decoder must reject them
 				for _, b := range ins {
